@@ -344,6 +344,43 @@ class Gen:
         else:
             self.do({'op': op_, 'r': a, 'other': b_})
 
+    def g_crossed_stops(self):
+        """A value whose stop list at some index names its settings in another order than they are stacked: an inner
+        range first, then an outer range (earlier start, same end) on top of it."""
+        r = self.pick('S')
+        if not r or self.length(r) < 2:
+            return
+        n = self.length(r)
+        x, y = self.rng.choice([('32', '31'), ('31', '34'), ('1', '22'), ('41', '42'), ('4', '24'), ('31', '1'), ('3', '9')])
+        e = self.rng.randint(2, n)
+        j = self.rng.randint(1, e - 1)
+        i = self.rng.randint(0, j - 1)
+        self.do({'op': 'apply', 'r': r, 'sets': [{'k': 'aset', 'v': x}], 'S': [x], 'start': j, 'end': e, 'top': True})
+        self.do({'op': 'apply', 'r': r, 'sets': [{'k': 'aset', 'v': y}], 'S': [y], 'start': i, 'end': e, 'top': self.rng.random() < 0.8})
+
+    def g_seam_stop_order(self):
+        """The left operand closes two conflicting settings at its end in an order that differs from their precedence
+        (the outer one was applied later, on top, from an earlier start); the right operand opens with the same two
+        settings spelled in the order of the left operand's stop list."""
+        if not self.room(4):
+            return
+        x, y = self.rng.choice([('32', '31'), ('31', '34'), ('1', '22'), ('41', '42'), ('4', '24'), ('31', '1')])
+        n = self.rng.randint(2, 4)
+        a = self.do({'op': 'new', 'cls': 'S', 'text': self.text(n), 'sets': [], 'S': []})['res'][0]
+        j = self.rng.randint(1, n - 1)
+        i = self.rng.randint(0, j - 1)
+        end = self.rng.choice([None, n, n + 3])
+        self.do({'op': 'apply', 'r': a, 'sets': [{'k': 'aset', 'v': x}], 'S': [x], 'start': j, 'end': end, 'top': True})
+        self.do({'op': 'apply', 'r': a, 'sets': [{'k': 'aset', 'v': y}], 'S': [y], 'start': i, 'end': end, 'top': True})
+        order = [x, y] if self.rng.random() < 0.75 else [y, x]
+        b_ = self.do({'op': 'new', 'cls': self.rng.choice('SSA'), 'text': self.text(self.rng.randint(1, 3)),
+                      'sets': [{'k': 'aset', 'v': c} for c in order], 'S': order})['res'][0]
+        op_ = self.rng.choice(['add', 'iadd', 'join'])
+        if op_ == 'join':
+            self.do({'op': 'join', 'cls': 'S', 'items': [a, b_]})
+        else:
+            self.do({'op': op_, 'r': a, 'other': b_})
+
     def g_bottom_at_begin(self):
         """topmost=False starting exactly where another setting begins, underneath a conflicting setting that began earlier."""
         r = self.pick('S')
@@ -1058,7 +1095,7 @@ class Gen:
 
 
 W_BASE = {'new': 1.0, 'new_from': 0.5, 'apply': 3, 'remove': 2, 'clear': 0.2, 'slice': 2, 'index': 0.7, 'clip': 0.7,
-          'iter': 0.2, 'add': 1.5, 'iadd': 1.5, 'join': 0.7, 'split_rejoin': 0.7, 'copy': 0.8, 'render': 0.5, 'iter_join': 0.3}
+          'iter': 0.2, 'crossed_stops': 0.5, 'add': 1.5, 'iadd': 1.5, 'join': 0.7, 'split_rejoin': 0.7, 'copy': 0.8, 'render': 0.5, 'iter_join': 0.3}
 
 
 def weights(**over):
@@ -1082,7 +1119,7 @@ PROFILES = {
                    strip=0.5, new_from=0.8),
     'C04': weights(slice=5, index=2, clip=2, iter=1.5, iter_join=0.6, apply=3, remove=1.5, pad=0.8, assign_str=0.6, strip=0.4,
                    same_form_nested=1.2, grow_then_slice=1.2),
-    'C05': weights(add=4, iadd=4, join=2, split_rejoin=2, slice=2, iter_join=1.0, shared_objects=0.8, seam_order=1.2, same_form_nested=1.0, join_plain_escapes=1.0),
+    'C05': weights(add=4, iadd=4, join=2, split_rejoin=2, slice=2, iter_join=1.0, shared_objects=0.8, seam_stop_order=1.0, seam_order=1.2, same_form_nested=1.0, join_plain_escapes=1.0),
     'C06': weights(apply=6, remove=1.5, slice=1, restart_leftover=1.5, bottom_at_begin=1.5, same_form_nested=1.5, apply_match=0.7),
     'C07': weights(remove=4, remove_edge=2.5, apply=5, clear=0.3, remove_prefixlike=1.2, remove_disjoint=1.2),
     'C08': weights(copy=3, eq=0.8, add=2.5, iadd=2.5, join=1.5, slice=3, new_from=2, replace=2, pad=0.7, strip=0.5, split=0.5, fmt=0.7,
